@@ -513,3 +513,15 @@ PROPS['C01']['jobs'] += _mtcold('h_c01', 'fast2', None, 4_000, 200_000)
 PROPS['C09']['jobs'] += _mtcold('h_cubic', 'fast2', 'c09.op', 4_000, 200_000)
 PROPS['C10']['jobs'] += _mtcold('h_scalar2', 'fast2', 'c10', 8_000, 400_000)
 PROPS['C15']['jobs'] += _mtcold('h_scalar2', 'fast2', 'c15', 4_000, 200_000)
+
+# C12 also owns the question "may two calls be in flight at once": transforms, tree builders and bulk copies entered by several application threads
+# (each with its own objects and buffers) -- the same @mt properties as above, charged to C12 as well
+PROPS['C12']['jobs'] += [J('h_ntt', 'tsan2', 300, 10_000, only='c03.random,c04.random,c05.random', wq=8, wt=16, args=['--mt'], tag='app-threads-tsan', class_prefix='app-threads-tsan:'),
+                         J('h_ntt', 'fast2', 1_500, 80_000, only='c03.random,c04.random,c05.random', wq=8, wt=16, args=['--mt'], tag='app-threads', class_prefix='app-threads:'),
+                         J('h_poseidon', 'tsan5', 300, 8_000, only='c08.random', wq=8, wt=16, args=['--mt'], tag='app-threads-merkle-tsan', class_prefix='app-threads-tsan:'),
+                         J('h_poseidon', 'fast5', 1_500, 80_000, only='c08.random', wq=8, wt=16, args=['--mt'], tag='app-threads-merkle', class_prefix='app-threads:'),
+                         J('h_wrappers', 'tsan5', 500, 20_000, only='c17.par', wq=4, wt=16, args=['--mt'], tag='app-threads-par-tsan', class_prefix='app-threads-tsan:')]
+PROPS['C12']['rule'] += _MT_RULE
+# the AVX2 kernels as compiled into an AVX512 build (code under #ifdef __AVX512__ inside the AVX2 header)
+PROPS['C13']['jobs'] += [J('h_lanes', 'fast5', 300_000, 15_000_000, only='c13', wq=4, wt=16, tag='avx512-build', class_prefix='avx512-build:')]
+PROPS['C02']['jobs'] += [J('h_lanes', 'fast5', 600_000, 1, only='c02', wq=4, wt=16, tiers=['quick'], tag='avx512-build', class_prefix='avx512-build:')]
